@@ -195,4 +195,141 @@ theorem phaseCorrection_of_valid (n : Nat) (A B : Adj) (hA : Simple n A) (hB : S
   show xor false (sfun i) = _
   simp [sfun]
 
+/-! ### the two models of `converter_gate_list` / `lc_check` agree -/
+
+/-- the specification-level phase correction on the gates of a valid `Q`, with its list exposed -/
+theorem phaseCorrection_spec_of_valid (n : Nat) (A B : Adj) (hA : Simple n A) (hB : Simple n B) (v : List Bool)
+    (hq : ∀ j k, j < n → k < n → equation n A B (vget v) j k = false) (hv : isValidClifford n v = true)
+    (t1 : Tab) (e1 : runGates (graphTab n A) (qGates n v) = .ok t1) :
+    phaseCorrection t1 B =
+      some (((List.range n).filter fun q => groupSign t1 (graphGen B q) == some true).map fun q => ("Z", q)) := by
+  obtain ⟨t1', e1', hn1, hv1, hr1, hK⟩ := gates_map_state_up_to_signs n A B hA hB v hq hv
+  rw [e1] at e1'
+  have : t1 = t1' := Except.ok.inj e1'
+  subst this
+  have hsign : ∀ k, k < n → ∃ s, groupSign t1 (graphGen B k) = some s := by
+    intro k hk
+    rcases hK k hk with h | h
+    · exact ⟨false, groupSign_complete t1 hv1 hr1 _ _ rfl h (sameBits_refl _ _)⟩
+    · exact ⟨true, groupSign_complete t1 hv1 hr1 (graphGen B k) (negate (graphGen B k)) rfl h (fun _ _ => ⟨rfl, rfl⟩)⟩
+  unfold phaseCorrection
+  simp only []
+  have hall : ((List.range t1.n).map fun q => groupSign t1 (graphGen B q)).all Option.isSome = true := by
+    rw [List.all_eq_true]
+    intro o ho
+    obtain ⟨q, hq', e⟩ := List.mem_map.mp ho
+    rw [hn1] at hq'
+    obtain ⟨s, hs⟩ := hsign q (List.mem_range.mp hq')
+    rw [← e, hs]; rfl
+  rw [if_pos hall, hn1]
+  congr 1
+  rw [← filterMap_ite_eq_map_filter]
+  apply List.filterMap_congr
+  intro q hq'
+  have hq'' := List.mem_range.mp hq'
+  have : ((List.range n).map fun q => groupSign t1 (graphGen B q)).getD q none = groupSign t1 (graphGen B q) := by
+    simp [List.getD, hq'']
+  rw [this]
+
+/-- **the function-level `converter_gate_list` returns the gate list of the specification-level one** (simple graphs of equal
+    size): same gates of `Q`, same `Z` corrections; and it raises exactly when the other does -/
+theorem converterGateListF_eq (a b : BMat) (hab : a.r = b.r) (ha : Simple a.r a.f) (hb : Simple b.r b.f) :
+    (∀ L flag, converterGateListR a b = .ok (L, flag) → converterGateListF a b = .ok L) ∧
+    (∀ e, converterGateListR a b = .error e → ∃ e', converterGateListF a b = .error e') := by
+  have hb' : Simple a.r b.f := by rw [hab]; exact hb
+  obtain ⟨out, eo⟩ := isLcEquivalentR_total a b .det [] hab ha (by decide)
+  cases hs : out.sol with
+  | none =>
+    constructor
+    · intro L flag h
+      unfold converterGateListR at h
+      rw [eo] at h
+      simp only [hs] at h
+      cases h
+    · intro e _
+      refine ⟨.assertion, ?_⟩
+      unfold converterGateListF
+      rw [eo]
+      simp only [hs]
+  | some s =>
+    obtain ⟨_, h2, h3⟩ := isLcEquivalentR_yes a b .det [] out s ha hb' eo hs
+    obtain ⟨t1, e1, hF⟩ := phaseCorrection_of_valid a.r a.f b.f ha hb' s h2 h3
+    have hS := phaseCorrection_spec_of_valid a.r a.f b.f ha hb' s h2 h3 t1 e1
+    have hR : converterGateListR a b = .ok (qGates a.r s ++
+        ((List.range a.r).filter fun q => groupSign t1 (graphGen b.f q) == some true).map (fun q => ("Z", q)), true) := by
+      unfold converterGateListR
+      rw [eo]
+      simp only [hs]
+      show ((match runGates (graphTab a.r a.f) (qGates a.r s) with
+        | Except.error e => Except.error e
+        | Except.ok t => match phaseCorrection t b.f with
+          | some zs => Except.ok (qGates a.r s ++ zs, true)
+          | none => Except.ok (qGates a.r s, false)) : Except Err (List (String × Nat) × Bool)) = _
+      rw [e1]
+      simp only [hS]
+    have hFF : converterGateListF a b = .ok (qGates a.r s ++
+        ((List.range a.r).filter fun q => groupSign t1 (graphGen b.f q) == some true).map (fun q => ("Z", q))) := by
+      unfold converterGateListF
+      rw [eo]
+      simp only [hs]
+      show ((match S2G.phaseCorrection (graphSTab a.r a.f) (graphSTab b.r b.f) ((qGates a.r s).map toGate) with
+        | Except.error e => Except.error e
+        | Except.ok zs => Except.ok (qGates a.r s ++ zs.map fromGate)) : Except Err (List (String × Nat))) = _
+      rw [← hab, hF]
+      simp only [List.map_map]
+      rfl
+    constructor
+    · intro L flag h
+      rw [hR] at h
+      have := Except.ok.inj h
+      rw [← (Prod.mk.inj this).1]
+      exact hFF
+    · intro e h
+      rw [hR] at h
+      cases h
+
+/-- **the function-level `lc_check` on two graphs returns exactly what the specification-level one returns**, validation by
+    canonical forms included (simple graphs of equal size) -/
+theorem lcCheckF_eq (a b : BMat) (validate : Bool) (hab : a.r = b.r) (ha : Simple a.r a.f) (hb : Simple b.r b.f) :
+    lcCheckF a b validate = lcCheckR a b validate := by
+  obtain ⟨h1, h2⟩ := converterGateListF_eq a b hab ha hb
+  cases hc : converterGateListR a b with
+  | error e =>
+    obtain ⟨e', he'⟩ := h2 e hc
+    unfold lcCheckF lcCheckR
+    rw [hc, he']
+  | ok r =>
+    obtain ⟨L, flag⟩ := r
+    have hF := h1 L flag hc
+    have hRf : lcCheckR a b false = .ok (true, L) := by
+      unfold lcCheckR
+      rw [hc]
+      rfl
+    -- the specification-level check passes (totality), so both return (true, L)
+    have hRv : lcCheckR a b validate = .ok (true, L) := by
+      obtain ⟨out, eo⟩ := isLcEquivalentR_total a b .det [] hab ha (by decide)
+      cases hq : out.sol with
+      | none =>
+        rw [lcCheckR_of_no a b out eo hq false] at hRf
+        cases hRf
+      | some s =>
+        obtain ⟨zs, _, hcv⟩ := lcCheckR_of_yes a b out s hab ha hb eo hq
+        rw [hcv false] at hRf
+        rw [hcv validate, ← hRf]
+    rw [hRv]
+    unfold lcCheckF
+    rw [hF]
+    simp only []
+    cases validate
+    · rfl
+    · have himg := lc_gates_image a b hab ha hb false L hRf
+      have hb' : Simple a.r b.f := by rw [hab]; exact hb
+      have key : STab.SpanEq ((graphSTab a.r a.f).runCircuit (L.map toGate)) (graphSTab a.r b.f) :=
+        circImage_unique (circImage_runCircuit (graphSTab a.r a.f) _ himg.wf) himg
+      have hgood := (tracks_runCircuit (graphSTab a.r a.f) (graphSTab_good a.r a.f ha.1) _ himg.wf).good
+      have hind := indep_runCircuit (graphSTab a.r a.f) (STab.graphSTab_indep a.r a.f) _ himg.wf
+      have hsame := sameStabilizerState_of_spanEq _ _ hgood (graphSTab_good a.r b.f hb'.1) hind
+        (STab.graphSTab_indep a.r b.f) key
+      rw [if_pos rfl, ← hab, hsame]
+
 end Graphiq.LC
